@@ -188,11 +188,18 @@ def runtime_shape(graph, shape, rng):
                 parents[m] = parents[m] + ['EXTRA']
     for m, ps in sorted(parents.items()):
         rt.append((m, ps, []))
-    return rt
+    messages = {}
+    for t, outs in sorted(graph.meta.get('customs', {}).items()):
+        pairs = []
+        for o in outs:
+            messages[(t, o)] = f'{o} of {t} is done'
+            pairs.append((o, messages[(t, o)]))
+        rt.append((t, [], pairs))
+    return rt, messages
 
 
 def load_config(text, graph, shape, rng):
-    rt = runtime_shape(graph, shape, rng)
+    rt, messages = runtime_shape(graph, shape, rng)
     flow = G.flow_cylc(
         [('P1', text)],
         scheduling=[('cycling mode', 'integer'),
@@ -204,7 +211,7 @@ def load_config(text, graph, shape, rng):
         f.write(flow)
     M._real['GraphNodeParser'].get_inst().clear()
     cfg = M._real['WorkflowConfig']('wf', path, options=M._real['Values']())
-    return cfg, {}, flow
+    return cfg, messages, flow
 
 
 # -- classification of a disagreement --------------------------------------
